@@ -19,6 +19,7 @@ func devMain(args []string) int {
 	verbose := fs.Bool("v", false, "verbose")
 	dump := fs.Bool("dump", false, "dump trace of violating runs")
 	target := fs.String("target", "", "target property (others are recorded as foreign)")
+	emit := fs.Bool("emit", false, "write a minimised replay file for the first violation of the target property")
 	fs.Parse(args)
 	p, ok := engine.ProfileByName(*prof)
 	if !ok {
@@ -67,6 +68,15 @@ func devMain(args []string) int {
 			}
 			if *verbose && r.Final != "" {
 				fmt.Print(r.Final)
+			}
+			if *emit && r.Violation.Property == *target {
+				acts := r.Trace
+				if r.HealAt >= 0 && r.HealAt < len(r.Trace) {
+					acts = append([]engine.Action(nil), r.Trace[:r.HealAt+1]...)
+				}
+				path, err := emitReplay(*target, *seed, engine.ViolRec{RunIndex: i, RunSeed: r.RunSeed, Profile: p.Name, Config: r.Config, Actions: acts, Violation: r.Violation, Digest: r.Digest}, true)
+				fmt.Println("replay file:", path, err)
+				*emit = false
 			}
 			if *dump {
 				b, _ := json.Marshal(r.Config)
